@@ -835,6 +835,11 @@ class Poly:
 def poly(f, i, atomize=None, env=None):
     """integer expression -> Poly; non-arithmetic subexpressions become atoms (rendered text,
     or atomize(f, node) if given and it returns a string)."""
+    i0 = f.strip(i, casts=False)
+    n0 = f.nodes[i0]
+    if "cv" in n0 and n0["k"] not in ("DeclRefExpr", "MemberExpr") and not (env and any(
+            f.nodes[x]["k"] == "DeclRefExpr" and f.nodes[x]["decl"].get("id") in env for x in f.walk(i0))):
+        return Poly.const(n0["cv"])      # constant expression, explicit casts included (e.g. (uint32_t)-1)
     i = f.strip(i)
     n = f.nodes[i]
     k = n["k"]
